@@ -12,7 +12,7 @@ import numpy as np
 
 from vf.core import Machinery
 
-TOG = dict(WeightByExamples=True, FreshClientOpt=True, RoundParams=True, ZeroGuard=True, CarryServerOpt=True, ProxOnRound=True)
+TOG = dict(WeightByExamples=True, FreshClientOpt=True, RoundParams=True, ZeroGuard=True, CarryServerOpt=True, ProxOnRound=True, AdvanceKey=True)
 
 
 def R(x):
@@ -89,6 +89,21 @@ def per_example_loss(params, batch, rng):
   return 0.5 * jnp.sum((w[None, :] - batch['x']) ** 2, axis=1)
 
 
+def int_noise_of(rng):
+  """The integer eta(key) of the key-dependent exact-island loss."""
+  import jax  # pylint: disable=g-import-not-at-top
+  return jax.random.randint(rng, (), -2, 3)
+
+
+def int_noise_loss(params, batch, rng):
+  """1/2 sum_l (w_l - x_l)^2 + eta(rng) * sum_l w_l per example with an INTEGER eta: stays on the exact island, and the
+  batch gradient is (w - mean x) + eta on every leaf, so the parameters reveal which key every step drew with."""
+  import jax.numpy as jnp  # pylint: disable=g-import-not-at-top
+  w = _flat(params)
+  eta = int_noise_of(rng).astype(jnp.float32)
+  return 0.5 * jnp.sum((w[None, :] - batch['x']) ** 2, axis=1) + jnp.sum(w) * eta
+
+
 def noisy_per_example_loss(params, batch, rng):
   import jax  # pylint: disable=g-import-not-at-top
   import jax.numpy as jnp  # pylint: disable=g-import-not-at-top
@@ -97,11 +112,16 @@ def noisy_per_example_loss(params, batch, rng):
   return 0.5 * jnp.sum((w[None, :] - batch['x']) ** 2, axis=1) + jnp.sum(w * eta)
 
 
+def complete(i):
+  """Fills the optional fields of an instance (Mime server rate; key-dependent loss term: zero when the loss ignores its key)."""
+  return dict(i, mime_slr=i.get('mime_slr', R(1)), noise=i.get('noise', [[[0] * max(1, len(s)) for s in i['stream']] for _ in range(i['rounds'])]))
+
+
 def oracle(ctx, instances, tag, module='FedRoundOracle', extra_consts=None):
   """TLC computes the exact parameters after every round for each instance. Returns list (per instance) of rounds -> list of Fractions."""
   from vf.tlc import Raw  # pylint: disable=g-import-not-at-top
   path = os.path.join(ctx.scratch, f'instances_{tag}.json')
-  instances = [dict(i, mime_slr=i.get('mime_slr', R(1))) for i in instances]
+  instances = [complete(i) for i in instances]
   with open(path, 'w') as f:
     json.dump([{'inst': i, 'events': []} for i in instances], f)
   consts = dict(Instances=Raw('{}'), **TOG)
@@ -123,7 +143,7 @@ def is_pow2(n):
   return n > 0 and (n & (n - 1)) == 0
 
 
-def random_instance(rng, fedjax, leaves=2, max_clients=5, rounds=None, dyadic=True, allow_momentum=True):
+def random_instance(rng, fedjax, leaves=2, max_clients=5, rounds=None, dyadic=True, allow_momentum=True, dups=False):
   """Draws a population, hyper-parameters and cohorts; streams come from the real batching code."""
   n = rng.randint(1, max_clients)
   sizes = [rng.choice([0, 1, 2, 3, 4, 5, 6]) for _ in range(n)]
@@ -142,6 +162,8 @@ def random_instance(rng, fedjax, leaves=2, max_clients=5, rounds=None, dyadic=Tr
     for _try in range(50):
       k = rng.randint(1, n)
       co = rng.sample(range(1, n + 1), k)
+      if dups and rng.random() < .5:     # sampling with replacement: a client listed twice in one cohort
+        co.insert(rng.randint(0, len(co)), rng.choice(co))
       tot = sum(len(data[c - 1]) for c in co)
       if not dyadic or tot == 0 or is_pow2(tot):
         break
@@ -185,12 +207,13 @@ def within_island(inst, bound=1 << 13):
   params = [frac(x) for x in inst['init']]
   sstate = [F(0)] * len(params)
   L = len(params)
-  for cohort in inst['cohorts']:
+  for ri, cohort in enumerate(inst['cohorts']):
     acc, nsum = [F(0)] * L, 0
     for c in cohort:
       w, s = list(params), [F(0)] * L
-      for batch in inst['stream'][c - 1]:
-        g = [chk(w[l] - F(sum(inst['data'][c - 1][i - 1][l] for i in batch), len(batch)) + mu * (w[l] - params[l])) for l in range(L)]
+      for bi, batch in enumerate(inst['stream'][c - 1]):
+        eta = inst['noise'][ri][c - 1][bi] if 'noise' in inst else 0
+        g = [chk(w[l] - F(sum(inst['data'][c - 1][i - 1][l] for i in batch), len(batch)) + eta + mu * (w[l] - params[l])) for l in range(L)]
         w, s = opt_apply(inst['copt'], g, s, w)
       n = len(inst['data'][c - 1])
       acc = [chk(a + n * (p - x)) for a, p, x in zip(acc, params, w)]
